@@ -153,8 +153,31 @@ def opC14Result (j : Json) : Except String Json := do
   pure (Json.mkObj [("result_type", match rt with | some r => jstr r | none => Json.null),
     ("stream_shaped", Json.bool (streamShaped t rt)), ("yields_stream", Json.bool (callingForm m).yieldsStream)])
 
+/-- the snippet index: {"keys": [[service, rpc]], "snippets": [{"service","rpc","async","tag"}], "queries": [[service, rpc, sync]]}
+    -> per query the region tag of the snippet `get_snippet` returns (null = None, or the error name) -/
+def opC14Index (j : Json) : Except String Json := do
+  let keys ← (← getArrL j "keys").mapM fun k => do
+    match (← k.getArr?).toList with
+    | [Json.str a, Json.str b] => pure (a.toList, b.toList)
+    | _ => throw "bad key"
+  let snips ← (← getArrL j "snippets").mapM fun s => do
+    pure (⟨← getStrL s "service", ← getStrL s "rpc", ← getBoolK s "async", ← getStrL s "tag"⟩ : Snip)
+  let errStr : IxErr → String := fun | .unknownService => "UnknownService" | .rpcMethodNotFound => "RpcMethodNotFound"
+  match (Index.init keys).addAll snips with
+  | .error e => pure (Json.mkObj [("error", Json.str (errStr e))])
+  | .ok ix =>
+    let res ← (← getArrL j "queries").mapM fun q => do
+      match (← q.getArr?).toList with
+      | [Json.str a, Json.str b, Json.bool sy] =>
+        pure (match ix.getSnippet a.toList b.toList sy with
+          | .ok (some s) => jstr s.regionTag
+          | .ok none => Json.null
+          | .error e => Json.str (errStr e))
+      | _ => throw "bad query"
+    pure (Json.mkObj [("results", jarr res)])
+
 def opsC14 : List (String × (Json → Except String Json)) :=
   [("c14.specs", opC14Specs), ("c14.form", opC14Form), ("c14.segments", opC14Segments), ("c14.request", opC14Request),
-   ("c14.names", opC14Names), ("c14.params", opC14Params), ("c14.result", opC14Result)]
+   ("c14.names", opC14Names), ("c14.params", opC14Params), ("c14.result", opC14Result), ("c14.index", opC14Index)]
 
 end GapicModel.Driver
